@@ -61,6 +61,7 @@ pub mod thread {
 
     impl Thread {
         pub fn unpark(&self) {
+            let _internal = crate::__verif::sched::internal();
             match cur() {
                 Some((sched, me)) if self.serial != 0 => {
                     if sched.check_live(me, self.serial, "Thread", "unpark") {
@@ -89,6 +90,7 @@ pub mod thread {
 
     impl Clone for Thread {
         fn clone(&self) -> Self {
+            let _internal = crate::__verif::sched::internal();
             match cur() {
                 Some((sched, me)) => {
                     sched.yield_point(me, std::thread::panicking());
@@ -110,6 +112,7 @@ pub mod thread {
 
     impl Drop for Thread {
         fn drop(&mut self) {
+            let _internal = crate::__verif::sched::internal();
             if self.serial != 0 {
                 if let Some((sched, _)) = cur() {
                     sched.retire(self.serial);
@@ -119,6 +122,7 @@ pub mod thread {
     }
 
     pub fn current() -> Thread {
+        let _internal = crate::__verif::sched::internal();
         match cur() {
             Some((sched, me)) => Thread { serial: sched.register("Thread"), tid: me, real: None },
             None => Thread { serial: 0, tid: 0, real: Some(::std::thread::current()) },
@@ -126,6 +130,7 @@ pub mod thread {
     }
 
     pub fn park() {
+        let _internal = crate::__verif::sched::internal();
         match cur() {
             Some((sched, me)) => sched.park(me),
             None => ::std::thread::park(),
@@ -151,6 +156,7 @@ pub mod thread {
             F: FnOnce() -> T + Send + 'static,
             T: Send + 'static,
         {
+            let _internal = crate::__verif::sched::internal();
             let mut builder = ::std::thread::Builder::new();
             if let Some(name) = &self.name {
                 builder = builder.name(name.clone());
@@ -168,6 +174,8 @@ pub mod thread {
                         struct Exit(::std::sync::Arc<Sched>, usize);
                         impl Drop for Exit {
                             fn drop(&mut self) {
+                let _internal = crate::__verif::sched::internal();
+            let _internal = crate::__verif::sched::internal();
                                 self.0.thread_exit(self.1);
                             }
                         }
@@ -207,6 +215,7 @@ pub mod sync {
 
         impl AtomicUsize {
             pub fn new(v: usize) -> Self {
+            let _internal = crate::__verif::sched::internal();
                 let serial = match cur() {
                     Some((sched, _)) => {
                         let serial = sched.register("AtomicUsize");
@@ -222,6 +231,7 @@ pub mod sync {
 
             /// `rmw`: read-modify-write (continues a release sequence).
             fn scheduled<R>(&self, op: &'static str, order: Ordering, writes: bool, rmw: bool, dummy: R, f: impl FnOnce(&::std::sync::atomic::AtomicUsize) -> R) -> R {
+            let _internal = crate::__verif::sched::internal();
                 match cur() {
                     Some((sched, me)) if self.serial != 0 => {
                         let serial = self.serial;
@@ -286,6 +296,8 @@ pub mod sync {
 
         impl Drop for AtomicUsize {
             fn drop(&mut self) {
+                let _internal = crate::__verif::sched::internal();
+            let _internal = crate::__verif::sched::internal();
                 if self.serial != 0 {
                     if let Some((sched, _)) = cur() {
                         sched.retire(self.serial);
@@ -312,6 +324,7 @@ pub mod sync {
         }
 
         pub fn lock(&self) -> Result<MutexGuard<'_, T>, PoisonError<MutexGuard<'_, T>>> {
+            let _internal = crate::__verif::sched::internal();
             let key = self as *const Self as usize;
             if let Some((sched, me)) = cur() {
                 sched.yield_point(me, false);
@@ -359,6 +372,7 @@ pub mod sync {
 
     impl<T> Drop for MutexGuard<'_, T> {
         fn drop(&mut self) {
+            let _internal = crate::__verif::sched::internal();
             // Release the real lock first, then the scheduler's ownership.
             self.real.take();
             if let Some((sched, me)) = cur() {
@@ -397,6 +411,7 @@ pub mod sync {
 
     impl Barrier {
         pub fn new(n: usize) -> Self {
+            let _internal = crate::__verif::sched::internal();
             let serial = match cur() {
                 Some((sched, _)) => sched.with_state(|st| {
                     let serial = st.new_serial("Barrier");
@@ -409,6 +424,7 @@ pub mod sync {
         }
 
         pub fn wait(&self) -> BarrierWaitResult {
+            let _internal = crate::__verif::sched::internal();
             match cur() {
                 Some((sched, me)) if self.serial != 0 => {
                     let serial = self.serial;
@@ -455,6 +471,7 @@ pub mod sync {
 
     impl Drop for Barrier {
         fn drop(&mut self) {
+            let _internal = crate::__verif::sched::internal();
             if self.serial != 0 {
                 if let Some((sched, _)) = cur() {
                     sched.retire(self.serial);
@@ -490,6 +507,7 @@ pub mod sync {
 
         /// Only capacity 0 (rendezvous) is modelled under a scheduler.
         pub fn sync_channel<T>(bound: usize) -> (SyncSender<T>, Receiver<T>) {
+            let _internal = crate::__verif::sched::internal();
             match cur() {
                 Some((sched, _)) if bound == 0 => {
                     let serial = sched.with_state(|st| {
@@ -509,6 +527,7 @@ pub mod sync {
 
         impl<T> SyncSender<T> {
             pub fn send(&self, value: T) -> Result<(), SendError<T>> {
+            let _internal = crate::__verif::sched::internal();
                 let (Some(shared), Some((sched, me))) = (&self.shared, cur()) else {
                     return match &self.real {
                         Some(real) => real.send(value),
@@ -558,6 +577,8 @@ pub mod sync {
 
         impl<T> Drop for SyncSender<T> {
             fn drop(&mut self) {
+                let _internal = crate::__verif::sched::internal();
+            let _internal = crate::__verif::sched::internal();
                 if let (Some(shared), Some((sched, _))) = (&self.shared, cur()) {
                     let serial = shared.serial;
                     sched.with_state(|st| {
@@ -580,6 +601,7 @@ pub mod sync {
 
         impl<T> Receiver<T> {
             pub fn recv(&self) -> Result<T, RecvError> {
+            let _internal = crate::__verif::sched::internal();
                 let (Some(shared), Some((sched, me))) = (&self.shared, cur()) else {
                     return match &self.real {
                         Some(real) => real.recv(),
@@ -619,6 +641,8 @@ pub mod sync {
 
         impl<T> Drop for Receiver<T> {
             fn drop(&mut self) {
+                let _internal = crate::__verif::sched::internal();
+            let _internal = crate::__verif::sched::internal();
                 if let (Some(shared), Some((sched, _))) = (&self.shared, cur()) {
                     let serial = shared.serial;
                     sched.with_state(|st| {
